@@ -6,10 +6,14 @@
     trunc <hex contents> <n>                → hex of the contents after truncate(n)
     path <hex cwd | none> <hex path>        → hex of the path a by-path request carries (`_adjust_cwd`) | hex of the
                                               server's canonical form of it
+    prog <append 0|1> <bufsize> <hex file> <pos at open> <op>…   with ops  w:<hex>  t:<n>  a  c
+                                            → <requests on the wire: W:<off>:<len> T:<n> A, or -> | <hex served file>
+                                              | <bytes still pending>      (open SFTPFile with write buffering)
   calls are printed as `chmod:<m>`, `chown:<u>:<g>`, `utime:<a>:<t>`, `truncate:<n>`, space separated, `-` if none.
 -/
 import PV.Model.SetAttr
 import PV.Model.Canon
+import PV.Model.HandleProg
 import PV.Base.DriverIO
 open PV PV.Wire PV.SftpAttr PV.SetAttr
 
@@ -32,6 +36,18 @@ def parseOp : List String → Option Op
   | ["truncate", n] => n.toNat?.map .truncate
   | _ => none
 
+def parseHOp (t : String) : Option PV.HandleProg.Op :=
+  if t == "a" then some .attr else if t == "c" then some .close else
+  match t.splitOn ":" with
+  | ["w", h] => (ofHex? h).map .write
+  | ["t", n] => n.toNat?.map .truncate
+  | _ => none
+
+def showEv : PV.HandleProg.Ev → String
+  | .W o l => s!"W:{o}:{l}"
+  | .T n => s!"T:{n}"
+  | .A => "A"
+
 def step (line : String) : String :=
   match words line with
   | ["calls", hex] =>
@@ -52,6 +68,15 @@ def step (line : String) : String :=
       let q := adjustCwd c p
       toHexTok q ++ " | " ++ toHexTok (PV.Canon.canonicalize q)
     | _, _ => "bad-op"
+  | "prog" :: ap :: bufsize :: file :: p0 :: ops =>
+    match (if ap == "1" then some true else if ap == "0" then some false else none), bufsize.toNat?, ofHex? file,
+        p0.toNat?, ops.mapM parseHOp with
+    | some ap, some b, some f, some p, some ops =>
+      if b = 1 then "bad-op" else   -- line buffering is not modelled
+      let (s, ev) := PV.HandleProg.run { file := f, realpos := p, wbuf := [], append := ap, bufsize := b } ops
+      (if ev.isEmpty then "-" else " ".intercalate (ev.map showEv)) ++ " | " ++ toHexTok s.file ++ " | "
+        ++ toString s.wbuf.length
+    | _, _, _, _, _ => "bad-op"
   | ["trunc", hex, n] =>
     match ofHex? hex, n.toNat? with
     | some c, some n => toHexTok (truncated c n)
